@@ -35,6 +35,9 @@ pub fn payloads() -> Vec<(&'static str, Vec<u8>)> {
         ("ff-no-eol", b"abc\xff".to_vec()),
         ("invalid-utf8-run-no-eol", (0x80u8..0xa8).collect()),
         ("utf8-no-eol", "l1\n\u{65e5}\u{672c}".as_bytes().to_vec()),
+        // unterminated text that holds the (unsalted) beginning of a divider line
+        ("divider-prefix-no-eol", b"see ~~~~~~~~EXECDIVIDER::x".to_vec()),
+        ("ansi-no-eol", b"\x1b[1mbold\x1b[0m".to_vec()),
     ]
 }
 
@@ -272,7 +275,7 @@ impl Engine for VcIo {
         vec![
             "results hold for /bin/bash of this image (L4)".into(),
             "exit codes are set with a subshell `(exit c)` so that the single-script executor is not terminated (documented behaviour of `exit`); plain `exit c` is covered for the per-process executor".into(),
-            "a payload imitating scrut's divider in script mode may be answered with an execution error; wrong attribution is a violation".into(),
+            "output that imitates scrut's divider lines (without knowing the salt of the run) is output like any other".into(),
             "sizes are covered at decades, not for all n (L3)".into(),
         ]
     }
@@ -300,7 +303,8 @@ impl Engine for VcIo {
                 }
                 let tcs: Vec<TestCase> = steps.iter().map(|s| TestCase { title: "t".into(), shell_expression: step_command(s), expectations: vec![], exit_code: None, line_number: 1, config: cfg.clone() }).collect();
                 let r = guard(|| execute(*exec, &tcs, DocumentConfig::default_markdown(), &scratch));
-                let divider_like = steps.iter().any(|s| payloads()[s.payload].0.starts_with("divider"));
+                // (no exemption for output that imitates a divider line: the salt is there so that output cannot do that)
+                let divider_like = false;
                 let nontrivial = steps.len() > 1 || steps.iter().any(|s| s.payload != 2 || s.stream != 0 || s.code != 0) || *output_stream != 0 || *keep_crlf || *strip_ansi;
                 if nontrivial {
                     res.nontrivial.push(("C13", key));
